@@ -30,9 +30,9 @@ import (
 func init() {
 	Register("C17", &CheckInfo{
 		Fn: checkC17, Level: "model_checking",
-		Rule: "every extended commit of 3 validators with per-validator (flag in {commit, absent, nil, nil carrying one of 5 unauthenticated extensions}) x (payload in {empty, {}, null fields, own initial signatures, another validator's (replayed) initial signatures, invalid signatures, valset signature for the right / a wrong timestamp / 66 bytes, attestation for the current / an unknown / a duplicated snapshot, truncated JSON, random bytes}) - 21^3 commits with real ed25519 extension signatures - is run in 2 worlds (validator set unchanged / reordered after the snapshot) through the real PrepareProposalHandler, ProcessProposalHandler (baseapp's recover reproduced), VerifyVoteExtensionHandler and the real PreBlocker closure; oracles: Process(Prepare(commit)) accepts whenever baseapp.ValidateVoteExtensions accepts the commit; the injected data equals an independent reading of the extensions; every single-element mutation (change/delete/insert/swap in each of the 8 injected lists) of an accepted proposal is rejected; the store difference across PreBlocker is exactly what the extensions imply (EVM address only for unregistered operators and equal to the sender's own key; signatures/attestations only in the sender's slot); no panic escapes PreBlocker, recovered panics are counted",
+		Rule: "every extended commit of 3 validators with per-validator (flag in {commit, absent, nil, nil carrying one of 5 unauthenticated extensions}) x (payload in {empty, {}, null fields, own initial signatures, another validator's (replayed) initial signatures, invalid signatures, valset signature for the right / a wrong timestamp / 66 bytes, attestation for the current / an unknown / a duplicated snapshot, truncated JSON, random bytes}) - 21^3 commits with real ed25519 extension signatures - is run in 3 worlds (validator set unchanged / reordered after the snapshot / reordered by a checkpoint recorded in the very block of the snapshot) through the real PrepareProposalHandler, ProcessProposalHandler (baseapp's recover reproduced), VerifyVoteExtensionHandler and the real PreBlocker closure; oracles: Process(Prepare(commit)) accepts whenever baseapp.ValidateVoteExtensions accepts the commit; the injected data equals an independent reading of the extensions; every single-element mutation (change/delete/insert/swap in each of the 8 injected lists) of an accepted proposal is rejected; the store difference across PreBlocker is exactly what the extensions imply (EVM address only for unregistered operators and equal to the sender's own key; signatures/attestations only in the sender's slot); no panic escapes PreBlocker, recovered panics are counted",
 		Assume:      []string{"block_height and extended_commit_info in the injected tx are not bridge data and are not mutated", "ExtendVoteHandler needs a node keyring and is exercised only for its no-key path", "the relayer-side meaning of a signature (ecrecover) is C15/C16's subject; here signatures are opaque bytes"},
-		QuickBudget: 7 * time.Minute, ThoroughBudget: 30 * time.Minute,
+		QuickBudget: 7 * time.Minute, ThoroughBudget: 15 * time.Minute,
 	})
 }
 
@@ -108,9 +108,10 @@ type c17World struct {
 	cpTs uint64 // latest checkpoint timestamp (index >= 1)
 }
 
-func mkC17World(reorder bool) *c17World {
+func mkC17World(mode int) *c17World {
+	reorder := mode == 1
 	reg := []bool{true, true, false}
-	if reorder {
+	if mode != 0 {
 		reg = []bool{true, true, true}
 	}
 	w := NewWorld(Config{RegisterEVM: reg, ValStakes: []int64{5000, 3000, 2800}})
@@ -132,8 +133,39 @@ func mkC17World(reorder bool) *c17World {
 	if idx, err := w.App.BridgeKeeper.LatestCheckpointIdx.Get(w.Ctx); err != nil || idx.Index < 1 {
 		panic("C17 setup: no second checkpoint")
 	}
-	// an aggregate -> a snapshot -> attestation requests
-	must(w, "report", MsgSubmit(c.R1.Acc, w.CycleQuery(), U256(100)))
+	if mode == 2 {
+		// the validator set is reordered (V3 overtakes V2) by a shift that stays below 5%, so no checkpoint records it yet ...
+		before, _ := w.App.BridgeKeeper.LatestCheckpointIdx.Get(w.Ctx)
+		mustBlock(w, 12*time.Hour)
+		mustBlock(w, time.Second)
+		must(w, "overtake", MsgDelegate(c.Tipper.Acc, w.Vals[2], 560*TRB))
+		mustBlock(w, 12*time.Hour)
+		mustBlock(w, time.Second)
+		if mid, _ := w.App.BridgeKeeper.LatestCheckpointIdx.Get(w.Ctx); mid.Index != before.Index {
+			panic("C17 setup: the sub-5% shift already produced a checkpoint")
+		}
+		// ... and the small delegation that completes the 5% lands in the very block in which the report is aggregated:
+		// the new checkpoint and the snapshot carry the same timestamp
+		must(w, "report", MsgSubmit(c.R1.Acc, w.CycleQuery(), U256(100)))
+		exp := uint64(0)
+		for _, q := range w.Queries() {
+			if q.Meta.HasRevealedReports {
+				exp = q.Meta.Expiration
+			}
+		}
+		for uint64(w.Height()) < exp {
+			mustBlock(w, time.Second)
+		}
+		must(w, "complete-5%", MsgDelegate(c.Tipper.Acc, w.Vals[2], 60*TRB))
+		mustBlock(w, time.Second)
+		after, _ := w.App.BridgeKeeper.LatestCheckpointIdx.Get(w.Ctx)
+		if after.Index == before.Index || len(w.Aggregates()) == 0 {
+			panic(fmt.Sprintf("C17 setup: checkpoint and aggregate did not fall into one block (checkpoint %d -> %d, aggregates %d)", before.Index, after.Index, len(w.Aggregates())))
+		}
+	} else {
+		// an aggregate -> a snapshot -> attestation requests
+		must(w, "report", MsgSubmit(c.R1.Acc, w.CycleQuery(), U256(100)))
+	}
 	for i := 0; i < 3 && len(w.Aggregates()) == 0; i++ {
 		mustBlock(w, time.Second)
 	}
@@ -157,7 +189,7 @@ func mkC17World(reorder bool) *c17World {
 			panic("C17 setup: reordering did not produce a new checkpoint")
 		}
 	}
-	cw := &c17World{name: map[bool]string{false: "stable-valset", true: "reordered-valset"}[reorder], w: w}
+	cw := &c17World{name: []string{"stable-valset", "reordered-valset", "valset-updated-in-snapshot-block"}[mode], w: w}
 	return cw
 }
 
@@ -176,8 +208,8 @@ func (cw *c17World) stage() (*World, int64) {
 }
 
 func checkC17(rc *RunCtx) {
-	for _, reorder := range []bool{false, true} {
-		cw := mkC17World(reorder)
+	for mode := 0; mode < 3; mode++ {
+		cw := mkC17World(mode)
 		if rc.Replay != nil && rc.Replay.Scenario != cw.name {
 			continue
 		}
